@@ -1,5 +1,7 @@
 import GaeaVerif.Lemmas.TokenizeC06
+import GaeaVerif.Lemmas.TabRefC06
 import GaeaVerif.Model.FastPathC06
+import GaeaVerif.Model.TabRefC06
 import GaeaVerif.Gen.Consts
 /-
   C06 — The fast unsharded path never bypasses sharding.
@@ -22,14 +24,24 @@ import GaeaVerif.Gen.Consts
   commas, JOINs, sub-queries, several FROMs — a statement that mentions a ruled
   table as a word never takes the shortcut       (`fastpath_never_shortcuts_mention`).
 
-  The bridge to "the plan `BuildPlan` returns" is the assumption
-  `parser_tables_are_words`: every table name the parser reports (`TableName.Name`)
-  is a word of the text.  Under it, `fastpath_agrees_with_checker` shows that
-  `plan.Checker` (modelled: `checkerScan`) finds no sharded table in a statement the
-  pre-check forwards, so `BuildPlan` would not build a shard plan for it.  The
-  assumption is not proved (the parser is trusted); the correspondence checks it
-  on every generated statement (field `asm`), compares `checkerScan` with the real
-  `plan.Checker` (field `chk`), and checks the property itself: pre-check =
+  The bridge to "the plan `BuildPlan` returns" used to be the assumption
+  `parser_tables_are_words` (every table name the parser reports is a word of
+  the text).  It is now a lemma about a grammar of table references
+  (`Model/TabRefC06.lean`: bare and back-quoted identifiers with doubled
+  back-quotes and any characters inside, schema qualification with blanks and
+  comments around the dot, any letter case, names glued to punctuation, names
+  glued to the version number of an executable comment, names delimited by
+  Unicode white space): `stmt_refs_seen` shows that the guard sees every table
+  reference of a well-formed statement of the grammar, and
+  `fastpath_agrees_with_checker_grammar` that `plan.Checker` (modelled:
+  `checkerScan`) finds no sharded table in such a statement when the pre-check
+  forwards it — for every router, also one whose table names need quoting.
+  What remains trusted is that the parser reports, for the text `renderStmt`
+  renders, the references of the grammar; the correspondence checks that on
+  every statement generated from the grammar (field `gram`), checks on every
+  generated statement, grammar or not, that the guard sees every table name
+  the parser reports (`NameSeen`, field `asm`), compares `checkerScan` with the
+  real `plan.Checker` (field `chk`), and checks the property itself: pre-check =
   unshard never coincides with a shard plan / shard-planner error of `BuildPlan`.
 -/
 namespace GaeaVerif.C06
@@ -71,10 +83,35 @@ theorem tokenize_never_panics (s : Str) : tokenize s ≠ .panic := by
 def NoRuledWord (rules : List (Str × Str)) (sql : Str) : Prop :=
   ∀ w ∈ identWords sql, ∀ r ∈ rules, r.2 ≠ toLower w
 
+/-- No table with a rule is mentioned: each has a word in its name that the
+    guard's word set of the statement lacks. -/
+def NotMentioned (rules : List (Str × Str)) (sql : Str) : Prop :=
+  ∀ r ∈ rules, ∃ p ∈ identWords r.2, p ∉ statementWords sql
+
 theorem mentionsShardTable_false_iff (sql : Str) (rules : List (Str × Str)) :
-    mentionsShardTable sql rules = false ↔ NoRuledWord rules sql := by
-  unfold mentionsShardTable NoRuledWord
-  simp only [List.any_eq_false, List.any_eq_true, not_exists, not_and, beq_iff_eq]
+    mentionsShardTable sql rules = false ↔ NotMentioned rules sql := by
+  unfold mentionsShardTable NotMentioned isMentioned
+  simp only [List.any_eq_false, List.all_eq_true, List.contains_iff_mem]
+  constructor
+  · intro h r hr
+    have := h r hr
+    by_cases hex : ∃ p ∈ identWords r.2, p ∉ statementWords sql
+    · exact hex
+    · exfalso
+      apply this
+      intro p hp
+      by_cases hm : p ∈ statementWords sql
+      · exact hm
+      · exact absurd ⟨p, hp, hm⟩ hex
+  · intro h r hr hall
+    obtain ⟨p, hp, hn⟩ := h r hr
+    exact hn (hall p hp)
+
+/-- The guard sees the table name `n`: every word of the lower-cased name is in
+    the guard's word set of the statement. -/
+def NameSeen (sql n : Str) : Prop := ∀ p ∈ identWords (toLower n), p ∈ statementWords sql
+
+instance (sql n : Str) : Decidable (NameSeen sql n) := by unfold NameSeen; exact inferInstance
 
 /-! ### helper lemmas: words and the router -/
 
@@ -109,6 +146,30 @@ theorem fieldsAux_no_sep (f : Char → Bool) (cur s : Str) (hcur : ∀ c ∈ cur
       rcases hc with h | h
       · subst h; simpa using hx
       · exact hcur c h
+
+/-- `strings.FieldsFunc` never yields an empty field. -/
+theorem fieldsAux_nil_not_mem (f : Char → Bool) (s : Str) : ∀ cur, ([] : Str) ∉ fieldsAux f cur s := by
+  induction s with
+  | nil =>
+    intro cur h
+    simp only [fieldsAux] at h
+    split at h
+    · simp at h
+    · rename_i hc
+      simp only [List.mem_singleton] at h
+      exact hc (by simpa using h.symm)
+  | cons x s ih =>
+    intro cur h
+    simp only [fieldsAux] at h
+    split at h
+    · split at h
+      · exact ih [] h
+      · rename_i hc
+        simp only [List.mem_cons] at h
+        rcases h with h | h
+        · exact hc (by simpa using h.symm)
+        · exact ih [] h
+    · exact ih (x :: cur) h
 
 theorem upper_shift_ne_dot : ∀ n < 91, 65 ≤ n → Char.ofNat (n + 32) ≠ '.' := by decide
 
@@ -154,13 +215,72 @@ theorem hasRule_word (rules : List (Str × Str)) (db w : Str) (hw : ∀ c ∈ w,
     exact lowerChar_ne_dot d (hw d hd)
   simp only [this]
 
+/-! ### helper lemmas: what the guard sees -/
+
+/-- A word of the statement is a name the guard sees. -/
+theorem nameSeen_of_word (sql w : Str) (h : w ∈ identWords sql) : NameSeen sql w := by
+  have hid : ∀ c ∈ w, isIdentChar c = true := by
+    intro c hc
+    have := fieldsAux_no_sep (fun c => !isIdentChar c) [] sql (by simp) w h c hc
+    simpa using this
+  have hne : w ≠ [] := by
+    intro e; subst e
+    have : ([] : Str) ∈ fieldsAux (fun c => !isIdentChar c) [] sql := h
+    exact fieldsAux_nil_not_mem _ sql [] this
+  intro p hp
+  rw [identWords_toLower, identWords_word w hne hid] at hp
+  simp only [List.map_cons, List.map_nil, List.mem_singleton] at hp
+  subst hp
+  exact lower_word_mem_statementWords sql w h
+
+/-- Every word of the name is, lower-cased or not, a word of the statement. -/
+theorem nameSeen_of_words_subset (sql n : Str) (h : ∀ w ∈ identWords n, w ∈ identWords sql) : NameSeen sql n := by
+  intro p hp
+  rw [identWords_toLower] at hp
+  obtain ⟨w, hw, rfl⟩ := List.mem_map.1 hp
+  exact lower_word_mem_statementWords sql w (h w hw)
+
+/-- The two ways `Router.GetRule` / `GetShardRule` finds a rule. -/
+theorem hasRule_cases (rules : List (Str × Str)) (db t : Str) (h : hasRule rules db t = true) :
+    (∃ a b, splitAll '.' t = [a, b] ∧ (trimBackquote a, trimBackquote b) ∈ rules) ∨ (db, t) ∈ rules := by
+  unfold hasRule at h
+  simp only at h
+  generalize hp : splitAll '.' t = parts at h
+  match parts, h with
+  | [a, b], h => exact Or.inl ⟨a, b, rfl, by simpa using h⟩
+  | [], h => exact Or.inr (by simpa using h)
+  | [_], h => exact Or.inr (by simpa using h)
+  | _ :: _ :: _ :: _, h => exact Or.inr (by simpa using h)
+
+/-- A name the guard sees has no rule in a statement that mentions no ruled
+    table — in whatever database the router looks it up, and also when the
+    router reads the name as `db.table` (`Router.GetShardRule` splits at a dot). -/
+theorem seen_not_ruled (rules : List (Str × Str)) (sql n db : Str)
+    (hnm : NotMentioned rules sql) (hs : NameSeen sql n) : hasRule rules db (toLower n) = false := by
+  have key : ∀ d t, (∀ p ∈ identWords t, p ∈ identWords (toLower n)) → (d, t) ∉ rules := by
+    intro d t hsub hmem
+    obtain ⟨p, hp, hn⟩ := hnm (d, t) hmem
+    exact hn (hs p (hsub p hp))
+  cases hr : hasRule rules db (toLower n) with
+  | false => rfl
+  | true =>
+    exfalso
+    rcases hasRule_cases rules db _ hr with ⟨a, b, hsplit, hmem⟩ | hmem
+    · have e : toLower n = a ++ '.' :: b := splitAll_two '.' _ a b hsplit
+      refine key _ _ ?_ hmem
+      intro p hp
+      rw [identWords_trimBackquote] at hp
+      rw [e, identWords_sep '.' (by decide)]
+      exact List.mem_append_right _ hp
+    · exact key db (toLower n) (fun p hp => hp) hmem
+
 /-! ### the property -/
 
 /-- What an "unshard" answer of the last step means. -/
-theorem finish_unshard (g : Bool) (cfg : Cfg) (sql : Str) (r : Option (Str × Bool)) (d : Str)
+theorem finish_unshard (g : Guard) (cfg : Cfg) (sql : Str) (r : Option (Str × Bool)) (d : Str)
     (h : finish g cfg sql r = .unshard d) :
-    (g = true → mentionsShardTable sql cfg.rules = false) ∧ preCreateOK cfg.phyDBs d = true ∧
-      finish false cfg sql r = .unshard d := by
+    g.mentions sql cfg.rules = false ∧ preCreateOK cfg.phyDBs d = true ∧
+      finish .none cfg sql r = .unshard d := by
   unfold finish at h ⊢
   match r, h with
   | some (ruleDB, isUnshard), h =>
@@ -168,22 +288,18 @@ theorem finish_unshard (g : Bool) (cfg : Cfg) (sql : Str) (r : Option (Str × Bo
     split at h
     · rename_i hc
       injection h with h; subst h
-      simp only [Bool.and_eq_true, Bool.not_eq_eq_eq_not, Bool.not_true, Bool.and_eq_false_iff] at hc
+      simp only [Bool.and_eq_true, Bool.not_eq_eq_eq_not, Bool.not_true] at hc
       obtain ⟨⟨h1, h2⟩, h3⟩ := hc
-      refine ⟨?_, h3, ?_⟩
-      · intro hg
-        rcases h2 with h2 | h2
-        · rw [hg] at h2; cases h2
-        · exact h2
-      · simp [h1, h3]
+      refine ⟨h2, h3, ?_⟩
+      simp [h1, h3, Guard.mentions]
     · cases h
 
 /-- The two ways `preDecide` answers "unshard". -/
-theorem preDecide_unshard (g : Bool) (cfg : Cfg) (db : Str) (st : Nat) (sql : Str) (tokens : List Str) (d : Str)
+theorem preDecide_unshard (g : Guard) (cfg : Cfg) (db : Str) (st : Nat) (sql : Str) (tokens : List Str) (d : Str)
     (h : preDecide g cfg db st sql tokens = .unshard d) :
-    (cfg.rules = [] ∧ preCreateOK cfg.phyDBs db = true ∧ d = db ∧ preDecide false cfg db st sql tokens = .unshard d) ∨
+    (cfg.rules = [] ∧ preCreateOK cfg.phyDBs db = true ∧ d = db ∧ preDecide .none cfg db st sql tokens = .unshard d) ∨
     (∃ r, finish g cfg sql r = .unshard d ∧
-      (finish false cfg sql r = .unshard d → preDecide false cfg db st sql tokens = .unshard d)) := by
+      (finish .none cfg sql r = .unshard d → preDecide .none cfg db st sql tokens = .unshard d)) := by
   unfold preDecide at h ⊢
   match tokens, h with
   | t0 :: tl, h =>
@@ -202,6 +318,30 @@ theorem preDecide_unshard (g : Bool) (cfg : Cfg) (db : Str) (st : Nat) (sql : St
           simp only at h ⊢
           exact Or.inr ⟨_, h, fun hf => by simpa using hf⟩
 
+/-- **C06, soundness of the pre-check, for every router.**  For every namespace
+    (router rules — also on tables whose names need quoting —, physical
+    databases), session database, statement kind and statement text: if
+    `preBuildUnshardPlan` answers "unshard" (the statement is forwarded unrewritten
+    to the default slice and the parser never sees it), then no sharded, linked
+    or global table of any database is mentioned: each has a word in its name
+    that is not, in any letter case, a word of the statement (nor a word of the
+    statement without the version number of an executable comment). -/
+theorem fastpath_sound_names (cfg : Cfg) (db : Str) (st : Nat) (sql : Str) (d : Str)
+    (h : preBuildUnshardPlan cfg db st sql = .ok (.unshard d)) :
+    NotMentioned cfg.rules sql := by
+  unfold preBuildUnshardPlan at h
+  split at h
+  · rename_i tokens _
+    have h' : preDecide .cur cfg db st sql tokens = .unshard d := by
+      injection h
+    rcases preDecide_unshard .cur cfg db st sql tokens d h' with ⟨hr, _⟩ | ⟨r, hf, _⟩
+    · intro r hr'
+      rw [hr] at hr'
+      cases hr'
+    · exact (mentionsShardTable_false_iff sql cfg.rules).1 (finish_unshard .cur cfg sql r d hf).1
+  · cases h
+  · cases h
+
 /-- **C06, soundness of the pre-check.**  For every namespace (router rules,
     physical databases), session database, statement kind and statement text:
     if `preBuildUnshardPlan` answers "unshard" (the statement is forwarded
@@ -211,18 +351,11 @@ theorem preDecide_unshard (g : Bool) (cfg : Cfg) (db : Str) (st : Nat) (sql : St
 theorem fastpath_sound (cfg : Cfg) (db : Str) (st : Nat) (sql : Str) (d : Str)
     (h : preBuildUnshardPlan cfg db st sql = .ok (.unshard d)) :
     NoRuledWord cfg.rules sql := by
-  unfold preBuildUnshardPlan at h
-  split at h
-  · rename_i tokens _
-    have h' : preDecide true cfg db st sql tokens = .unshard d := by
-      injection h
-    rcases preDecide_unshard true cfg db st sql tokens d h' with ⟨hr, _⟩ | ⟨r, hf, _⟩
-    · intro w _ r hr'
-      rw [hr] at hr'
-      cases hr'
-    · exact (mentionsShardTable_false_iff sql cfg.rules).1 ((finish_unshard true cfg sql r d hf).1 rfl)
-  · cases h
-  · cases h
+  have hnm := fastpath_sound_names cfg db st sql d h
+  intro w hw r hr heq
+  obtain ⟨p, hp, hn⟩ := hnm r hr
+  rw [heq] at hp
+  exact hn (nameSeen_of_word sql w hw p hp)
 
 example : preBuildUnshardPlan { rules := [("db_ks".toList, "t_shard".toList)], phyDBs := [] }
     "db_ks".toList 0 "select * from u where id = 1".toList = .ok (.unshard "db_ks".toList) := by decide
@@ -291,6 +424,294 @@ theorem fastpath_agrees_with_checker (cfg : Cfg) (db : Str) (st : Nat) (sql : St
 
 example : checkerScan [("db_ks".toList, "t_shard".toList)] "db_ks".toList [("".toList, "T_SHARD".toList)] = .shard := by decide
 
+/-- **C06, against the parser-based analysis, with the assumption at its weakest.**
+    If the guard sees every table name the parser reports (`NameSeen`: every word
+    of the lower-cased name is in the guard's word set — true of any name between
+    back-quotes, whatever characters it holds), `plan.Checker` finds no sharded
+    table in a statement the pre-check forwards.  The correspondence checks
+    `NameSeen` for every table the parser reports on every generated statement
+    (field `asm`). -/
+theorem fastpath_agrees_with_checker_seen (cfg : Cfg) (db : Str) (st : Nat) (sql : Str) (d : Str)
+    (tables : List (Str × Str))
+    (h : preBuildUnshardPlan cfg db st sql = .ok (.unshard d))
+    (hasm : ∀ t ∈ tables, NameSeen sql t.2) :
+    checkerScan cfg.rules db tables ≠ .shard := by
+  have hnm := fastpath_sound_names cfg db st sql d h
+  induction tables with
+  | nil => simp [checkerScan]
+  | cons t rest ih =>
+    obtain ⟨schema, name⟩ := t
+    simp only [checkerScan]
+    by_cases h1 : (db.isEmpty && (toLower schema).isEmpty) = true
+    · simp [h1]
+    · simp only [h1, Bool.false_eq_true, if_false]
+      rw [seen_not_ruled cfg.rules sql name _ hnm (hasm (schema, name) (by simp))]
+      simp only [Bool.false_eq_true, if_false]
+      exact ih (fun t ht => hasm t (by simp [ht]))
+
+example : NameSeen "select * from u, `Order-Items`".toList "Order-Items".toList := by decide
+
+/-! ### the grammar of table references: the guard sees every reference
+
+  `Model/TabRefC06.lean`.  The assumption of the theorem above becomes a lemma:
+  for a statement built from the grammar (`renderStmt segs`) that is well formed
+  (`wfStmt`: a bare name is delimited, or glued to the version number of an
+  executable comment), the guard sees the name of every table reference. -/
+
+/-- `M?[0-9]{5,6}`. -/
+def IsVersionNumber (v : Str) : Prop :=
+  ∃ m ds, v = versionText m ds ∧ (∀ c ∈ ds, isDigit c = true) ∧ (ds.length = 5 ∨ ds.length = 6)
+
+theorem isDigit_isIdentChar : ∀ c : Char, isDigit c = true → isIdentChar c = true ∧ c ≠ 'M' := by
+  intro c h
+  have hr : 48 ≤ c.toNat ∧ c.toNat < 58 := by
+    simp only [isDigit, Bool.and_eq_true, decide_eq_true_eq] at h
+    have h1 := UInt32.le_iff_toNat_le.1 (Char.le_def.1 h.1)
+    have h2 := UInt32.le_iff_toNat_le.1 (Char.le_def.1 h.2)
+    have e1 : ('0' : Char).val.toNat = 48 := by decide
+    have e2 : ('9' : Char).val.toNat = 57 := by decide
+    simp only [Char.toNat]
+    omega
+  have key : ∀ n < 58, 48 ≤ n → isIdentChar (Char.ofNat n) = true ∧ Char.ofNat n ≠ 'M' := by decide
+  have := key c.toNat hr.2 hr.1
+  rwa [Char.ofNat_toNat] at this
+
+/-- The name glued to a version number is one of the readings of the word without it. -/
+theorem mem_withoutVersionNumber (v n : Str) (hv : IsVersionNumber v) : n ∈ withoutVersionNumber (v ++ n) := by
+  obtain ⟨m, ds, rfl, hd, hlen⟩ := hv
+  have hstrip : trimPrefixM (versionText m ds ++ n) = ds ++ n := by
+    unfold trimPrefixM
+    cases m with
+    | true => simp [versionText]
+    | false =>
+      simp only [versionText, Bool.false_eq_true, if_false, List.nil_append]
+      cases ds with
+      | nil => simp at hlen
+      | cons c cs =>
+        have := (isDigit_isIdentChar c (hd c (by simp))).2
+        simp only [List.cons_append]
+        split
+        · rename_i heq
+          simp only [List.cons.injEq] at heq
+          exact absurd heq.1 this
+        · rfl
+  unfold withoutVersionNumber
+  simp only [hstrip]
+  have htw : (ds ++ n).takeWhile isDigit = ds ++ n.takeWhile isDigit :=
+    List.takeWhile_append_of_pos (fun c hc => hd c hc)
+  rw [htw]
+  simp only [List.length_append, List.mem_append]
+  rcases hlen with h5 | h6
+  · left
+    have : 5 ≤ ds.length + (n.takeWhile isDigit).length := by omega
+    simp only [this, if_true, List.mem_singleton]
+    rw [← h5, List.drop_left]
+  · right
+    have : 6 ≤ ds.length + (n.takeWhile isDigit).length := by omega
+    simp only [this, if_true, List.mem_singleton]
+    rw [← h6, List.drop_left]
+
+theorem versionText_isIdent (v : Str) (hv : IsVersionNumber v) : ∀ c ∈ v, isIdentChar c = true := by
+  obtain ⟨m, ds, rfl, hd, _⟩ := hv
+  intro c hc
+  simp only [versionText, List.mem_append] at hc
+  rcases hc with hc | hc
+  · cases m with
+    | true =>
+      simp only [if_true, List.mem_singleton] at hc
+      subst hc; decide
+    | false => simp at hc
+  · exact (isDigit_isIdentChar c (hd c hc)).1
+
+/-- **The guard sees a table reference however it is written.**  `pre` is the
+    text before the name identifier (with the schema qualification, if any),
+    `post` the text after it.  A back-quoted name — any characters, back-quotes
+    doubled — is seen whatever surrounds it; a bare name when it is delimited
+    on both sides (end of the text or a character that is not an identifier
+    character: blank, Unicode white space, punctuation, back-quote, dot, comment
+    mark …), or when it follows `/*!` + a version number directly. -/
+theorem name_seen (pre post : Str) (name : Ident) (ver : Bool)
+    (hver : ver = true → ∃ p v, pre = p ++ versionMark ++ v ∧ IsVersionNumber v)
+    (h : wfName pre.getLast? ver name post = true) :
+    NameSeen (pre ++ name.render ++ post) name.name := by
+  obtain ⟨q, n⟩ := name
+  cases q with
+  | backquote =>
+    apply nameSeen_of_words_subset
+    intro w hw
+    simp only [Ident.render]
+    rw [identWords_backquoted]
+    simp [hw]
+  | bare =>
+    simp only [wfName, Bool.and_eq_true, Bool.not_eq_eq_eq_not, Bool.not_true, List.isEmpty_eq_false_iff,
+      List.all_eq_true, Bool.or_eq_true] at h
+    obtain ⟨⟨⟨hne, hid⟩, hleft⟩, hright⟩ := h
+    have hpost : ∀ c, post.head? = some c → (fun c => !isIdentChar c) c = true := by
+      intro c hc
+      simp only [endsWord, hc, Bool.not_eq_eq_eq_not, Bool.not_true] at hright
+      simp [hright]
+    simp only [Ident.render]
+    rcases hleft with hv | hl
+    · -- glued to the version number of an executable comment
+      obtain ⟨p, v, hpre, hvn⟩ := hver hv
+      subst hpre
+      have hvid := versionText_isIdent v hvn
+      have hword : v ++ n ∈ identWords (p ++ versionMark ++ v ++ n ++ post) := by
+        have e : p ++ versionMark ++ v ++ n ++ post = (p ++ versionMark) ++ (v ++ n) ++ post := by simp
+        rw [e]
+        unfold identWords
+        apply mem_fieldsFunc_of_delimited _ _ _ _ (by simp [hne])
+        · intro c hc
+          simp only [List.mem_append] at hc
+          rcases hc with hc | hc
+          · simp [hvid c hc]
+          · simp [hid c hc]
+        · intro c hc
+          have : c = '!' := by
+            simp only [versionMark, List.getLast?_append, List.getLast?_cons_cons, List.getLast?_singleton,
+              Option.some_or] at hc
+            exact (Option.some.inj hc).symm
+          subst this; decide
+        · exact hpost
+      have hcont : containsSub versionMark (p ++ versionMark ++ v ++ n ++ post) = true := by
+        have e : p ++ versionMark ++ v ++ n ++ post = p ++ versionMark ++ (v ++ n ++ post) := by simp
+        rw [e]; exact containsSub_mid _ _ _
+      intro w hw
+      rw [identWords_toLower, identWords_word n hne hid] at hw
+      simp only [List.map_cons, List.map_nil, List.mem_singleton] at hw
+      subst hw
+      exact versionless_mem_statementWords _ (v ++ n) n hcont hword (mem_withoutVersionNumber v n hvn)
+    · -- delimited on both sides
+      apply nameSeen_of_word
+      unfold identWords
+      apply mem_fieldsFunc_of_delimited _ pre n post hne
+      · intro c hc; simp [hid c hc]
+      · intro c hc
+        simp only [endsWord, hc, Bool.not_eq_eq_eq_not, Bool.not_true] at hl
+        simp [hl]
+      · exact hpost
+
+theorem getLast_lastOf (pre s : Str) : (pre ++ s).getLast? = lastOf pre.getLast? s := by
+  unfold lastOf
+  rw [List.getLast?_append]
+  cases s.getLast? <;> simp
+
+/-- **The guard sees every table reference of a well-formed statement of the grammar.** -/
+theorem segs_refs_seen (segs : List Seg) : ∀ (pre : Str) (ver : Bool),
+    (ver = true → ∃ p v, pre = p ++ versionMark ++ v ∧ IsVersionNumber v) →
+    wfSegs pre.getLast? ver segs = true →
+    ∀ r ∈ refsOf segs, NameSeen (pre ++ renderStmt segs) r.name.name := by
+  induction segs with
+  | nil => intro _ _ _ _ r hr; simp [refsOf] at hr
+  | cons seg rest ih =>
+    intro pre ver hver hwf r hr
+    cases seg with
+    | text s =>
+      simp only [wfSegs] at hwf
+      simp only [refsOf] at hr
+      have := ih (pre ++ s) (ver && s.isEmpty) (by
+        intro hv
+        simp only [Bool.and_eq_true, List.isEmpty_iff] at hv
+        obtain ⟨p, v, hp, hvn⟩ := hver hv.1
+        exact ⟨p, v, by simp [hv.2, hp], hvn⟩) (by rw [getLast_lastOf]; exact hwf) r hr
+      simpa [renderStmt, Seg.render] using this
+    | version m ds =>
+      simp only [wfSegs, Bool.and_eq_true, List.all_eq_true, Bool.or_eq_true, beq_iff_eq] at hwf
+      simp only [refsOf] at hr
+      obtain ⟨⟨⟨hd, hlen⟩, _⟩, hrest⟩ := hwf
+      have := ih (pre ++ versionMark ++ versionText m ds) true
+        (fun _ => ⟨pre, versionText m ds, rfl, m, ds, rfl, hd, hlen⟩)
+        (by
+          rw [getLast_lastOf]
+          have : (pre ++ versionMark).getLast? = some '!' := by
+            simp [versionMark, List.getLast?_append]
+          rw [this]; exact hrest) r hr
+      simpa [renderStmt, Seg.render] using this
+    | ref t =>
+      simp only [wfSegs, Bool.and_eq_true] at hwf
+      obtain ⟨hname, hrest⟩ := hwf
+      simp only [refsOf, List.mem_cons] at hr
+      have e : pre ++ renderStmt (Seg.ref t :: rest) = (pre ++ t.lead) ++ t.name.render ++ renderStmt rest := by
+        simp [renderStmt, Seg.render, TabRef.render]
+      rcases hr with hr | hr
+      · subst hr
+        rw [e]
+        apply name_seen (pre ++ r.lead) (renderStmt rest) r.name (ver && r.lead.isEmpty)
+        · intro hv
+          simp only [Bool.and_eq_true, List.isEmpty_iff] at hv
+          obtain ⟨p, v, hp, hvn⟩ := hver hv.1
+          exact ⟨p, v, by simp [hv.2, hp], hvn⟩
+        · rw [getLast_lastOf]; exact hname
+      · have := ih (pre ++ t.render) false (by simp) (by rw [getLast_lastOf]; exact hrest) r hr
+        simpa [renderStmt, Seg.render] using this
+
+theorem stmt_refs_seen (segs : List Seg) (h : wfStmt segs = true) :
+    ∀ r ∈ refsOf segs, NameSeen (renderStmt segs) r.name.name := by
+  have := segs_refs_seen segs [] false (by simp) (by simpa [wfStmt] using h)
+  simpa using this
+
+/-- **C06, against the parser-based analysis, over the grammar of table
+    references.**  For a well-formed statement of the grammar — table references
+    bare or back-quoted (any characters, doubled back-quotes), in any letter
+    case, with or without a schema (blanks and comments around the dot), glued
+    to punctuation, to comment marks, to Unicode white space or to the version
+    number of an executable comment, anywhere in the statement: sub-queries,
+    joins, UNION branches, INSERT … SELECT, multi-table UPDATE / DELETE — and for
+    every router (rules on tables whose names need quoting included), session
+    database and statement kind: when the pre-check forwards the statement,
+    `plan.Checker` finds no sharded table among the references (`tables`: what
+    the parser reports, each one a reference of the statement), so `BuildPlan`
+    would not have built a shard plan.  No assumption about the words of the
+    text is left; the parser is trusted to report references of the grammar. -/
+theorem fastpath_agrees_with_checker_grammar (cfg : Cfg) (db : Str) (st : Nat) (segs : List Seg) (d : Str)
+    (tables : List (Str × Str))
+    (hwf : wfStmt segs = true)
+    (h : preBuildUnshardPlan cfg db st (renderStmt segs) = .ok (.unshard d))
+    (hparser : ∀ t ∈ tables, ∃ r ∈ refsOf segs, r.parsed = t) :
+    checkerScan cfg.rules db tables ≠ .shard := by
+  apply fastpath_agrees_with_checker_seen cfg db st _ d tables h
+  intro t ht
+  obtain ⟨r, hr, hp⟩ := hparser t ht
+  have := stmt_refs_seen segs hwf r hr
+  rw [← hp]
+  exact this
+
+/-- The same read the other way round: a well-formed statement that holds a
+    reference to a table with a rule (as `plan.Checker` resolves it, in the
+    database `db'` the reference names or the session is in) never takes the
+    shortcut. -/
+theorem fastpath_never_shortcuts_ref (cfg : Cfg) (db : Str) (st : Nat) (segs : List Seg) (d : Str)
+    (hwf : wfStmt segs = true) (r : TabRef) (hr : r ∈ refsOf segs) (db' : Str)
+    (hrule : hasRule cfg.rules db' (toLower r.name.name) = true) :
+    preBuildUnshardPlan cfg db st (renderStmt segs) ≠ .ok (.unshard d) := by
+  intro h
+  have hnm := fastpath_sound_names cfg db st _ d h
+  have := seen_not_ruled cfg.rules _ r.name.name db' hnm (stmt_refs_seen segs hwf r hr)
+  rw [this] at hrule
+  cases hrule
+
+/-- A statement of the grammar with the spellings the once-repaired tree let
+    through: a back-quoted name that is not a word, a name after U+3000, a name
+    glued to a version number; well formed, and refused by the pre-check. -/
+def grammarExample : List Seg :=
+  [.text "select * from u,".toList, .ref ⟨none, [], ⟨.backquote, "Order-Items".toList⟩⟩,
+   .text ",\u3000".toList, .ref ⟨some ⟨.backquote, "db_ks".toList⟩, " . ".toList, ⟨.bare, "T_Shard".toList⟩⟩,
+   .text " join".toList, .version true "100100".toList, .ref ⟨none, [], ⟨.bare, "t_shard".toList⟩⟩, .text "*/".toList]
+
+example : wfStmt grammarExample = true := by decide
+example : String.ofList (renderStmt grammarExample) =
+    "select * from u,`Order-Items`,\u3000`db_ks` . T_Shard join/*!M100100t_shard*/" := by decide
+example : (refsOf grammarExample).map TabRef.parsed =
+    [([], "Order-Items".toList), ("db_ks".toList, "T_Shard".toList), ([], "t_shard".toList)] := by decide
+example (d : Str) : preBuildUnshardPlan { rules := [("db_ks".toList, "t_shard".toList)], phyDBs := [] }
+    "db_ks".toList 0 (renderStmt grammarExample) ≠ .ok (.unshard d) :=
+  fastpath_never_shortcuts_ref _ _ _ grammarExample d (by decide) ⟨none, [], ⟨.bare, "t_shard".toList⟩⟩ (by decide)
+    "db_ks".toList (by decide)
+example (d : Str) : preBuildUnshardPlan { rules := [("db_ks".toList, "order-items".toList)], phyDBs := [] }
+    "db_ks".toList 0 (renderStmt grammarExample) ≠ .ok (.unshard d) :=
+  fastpath_never_shortcuts_ref _ _ _ grammarExample d (by decide) ⟨none, [], ⟨.backquote, "Order-Items".toList⟩⟩ (by decide)
+    "db_ks".toList (by decide)
+
 /-- The guard only removes shortcuts: whatever the current pre-check forwards,
     the pre-check of the pinned tree forwarded too, to the same database. -/
 theorem guard_only_restricts (cfg : Cfg) (db : Str) (st : Nat) (sql : Str) (d : Str)
@@ -300,11 +721,11 @@ theorem guard_only_restricts (cfg : Cfg) (db : Str) (st : Nat) (sql : Str) (d : 
   unfold preBuildUnshardPlanPinned
   split at h
   · rename_i tokens heq
-    have h' : preDecide true cfg db st sql tokens = .unshard d := by injection h
+    have h' : preDecide .cur cfg db st sql tokens = .unshard d := by injection h
     congr 1
-    rcases preDecide_unshard true cfg db st sql tokens d h' with ⟨_, _, _, hp⟩ | ⟨r, hf, hp⟩
+    rcases preDecide_unshard .cur cfg db st sql tokens d h' with ⟨_, _, _, hp⟩ | ⟨r, hf, hp⟩
     · exact hp
-    · exact hp (finish_unshard true cfg sql r d hf).2.2
+    · exact hp (finish_unshard .cur cfg sql r d hf).2.2
   · cases h
   · cases h
 
@@ -315,10 +736,10 @@ theorem fastpath_database_ok (cfg : Cfg) (db : Str) (st : Nat) (sql : Str) (d : 
   unfold preBuildUnshardPlan at h
   split at h
   · rename_i tokens _
-    have h' : preDecide true cfg db st sql tokens = .unshard d := by injection h
-    rcases preDecide_unshard true cfg db st sql tokens d h' with ⟨_, hp, hd, _⟩ | ⟨r, hf, _⟩
+    have h' : preDecide .cur cfg db st sql tokens = .unshard d := by injection h
+    rcases preDecide_unshard .cur cfg db st sql tokens d h' with ⟨_, hp, hd, _⟩ | ⟨r, hf, _⟩
     · rw [hd]; exact hp
-    · exact (finish_unshard true cfg sql r d hf).2.1
+    · exact (finish_unshard .cur cfg sql r d hf).2.1
   · cases h
   · cases h
 
@@ -370,5 +791,40 @@ theorem fastpath_witnesses_repaired :
     preBuildUnshardPlan witnessCfg "db_ks".toList 0 "select * from (select * from t_shard) x".toList = .ok .no ∧
     preBuildUnshardPlan witnessCfg "db_ks".toList 0 "select * from`t_shard`".toList = .ok .no ∧
     preBuildUnshardPlan witnessCfg "db_ks".toList 2 "insert t_shard values (1)".toList = .ok .no := by decide
+
+/-! ### the tree after the first repair still violated the property: witnesses
+
+  `preBuildUnshardPlanV1` is the pre-check with the word scan as the first
+  `fix:` commit introduced it.  Three classes of statements that reference a
+  sharded table (the parser-based analysis builds a shard plan) still took the
+  shortcut; each was repaired by one further `fix:` commit.  Regression cases
+  of corpus/C06. -/
+
+def witnessCfg2 : Cfg :=
+  { rules := [("db_ks".toList, "t_shard".toList), ("db_ks".toList, "order-items".toList)],
+    phyDBs := [("db_ks".toList, "db_ks".toList)] }
+
+/-- The parser skips U+3000 (any `unicode.IsSpace` character) before a token; the
+    first word scan read the word `\u3000t_shard`. -/
+theorem fastpath_v1_unsound_witness_unicode_space :
+    preBuildUnshardPlanV1 witnessCfg2 "db_ks".toList 0 "select * from u,\u3000t_shard".toList
+      = .ok (.unshard "db_ks".toList) := by decide
+
+/-- A rule on a table whose name is not one word could never match a word. -/
+theorem fastpath_v1_unsound_witness_quoted_name :
+    preBuildUnshardPlanV1 witnessCfg2 "db_ks".toList 0 "select * from u, `Order-Items`".toList
+      = .ok (.unshard "db_ks".toList) := by decide
+
+/-- The parser drops `/*!50000`; the first word scan read the word `50000t_shard`. -/
+theorem fastpath_v1_unsound_witness_version_glued :
+    preBuildUnshardPlanV1 witnessCfg2 "db_ks".toList 0 "select * from u,/*!50000t_shard*/".toList
+      = .ok (.unshard "db_ks".toList) := by decide
+
+/-- … and the current pre-check refuses each of them. -/
+theorem fastpath_v1_witnesses_repaired :
+    preBuildUnshardPlan witnessCfg2 "db_ks".toList 0 "select * from u,\u3000t_shard".toList = .ok .no ∧
+    preBuildUnshardPlan witnessCfg2 "db_ks".toList 0 "select * from u, `Order-Items`".toList = .ok .no ∧
+    preBuildUnshardPlan witnessCfg2 "db_ks".toList 0 "select * from u,/*!50000t_shard*/".toList = .ok .no ∧
+    preBuildUnshardPlan witnessCfg2 "db_ks".toList 0 "select * from u join/*!M100100T_SHARD */ on 1=1".toList = .ok .no := by decide
 
 end GaeaVerif.C06
